@@ -374,6 +374,21 @@ class Byzantine:
         elif damage < 0.2 and pls and not crit_unknown and len(chain) > 4:
             chain = chain[:-r.randint(1, min(3, len(chain) - 1))]
             exp = ('trailing', 'chain ends early: ' + str([PT.get(p['type'], p['type']) for p in pls]))
+        elif damage < 0.3 and not crit_unknown:
+            # the data ends exactly at a payload boundary, but the last payload (or the header, for an empty chain) announces a successor
+            if pls:
+                o = 0
+                b = bytearray(chain)
+                while True:
+                    ln = struct.unpack('>H', b[o + 2:o + 4])[0]
+                    if o + ln >= len(b):
+                        break
+                    o += ln
+                b[o] = r.choice([R.P_NOTIFY, R.P_VENDOR, R.P_AUTH, R.P_NONCE, 200])
+                chain = bytes(b)
+            else:
+                first = r.choice([R.P_NOTIFY, R.P_SA, R.P_VENDOR])
+            exp = ('trailing', 'dangling next-payload: last payload announces a successor but the data ends: ' + str([PT.get(p['type'], p['type']) for p in pls]))
         cands = [sa for sa in node.ike_sas() if sa.ike_sa_keyring is not None and _keys_for(sa)]
         flags_variety = r.choice([0, 0, 0x10, 0x01, 0x40]) if exp[0] == 'accept' else 0
         if cands and r.random() < 0.6:
